@@ -2,6 +2,7 @@ package main
 
 import (
 	"bytes"
+	"context"
 	"encoding/json"
 	"fmt"
 	"io"
@@ -18,6 +19,7 @@ import (
 	"github.com/nats-io/nats.go"
 	"github.com/simpleiot/simpleiot/client"
 	"github.com/simpleiot/simpleiot/data"
+	"github.com/simpleiot/simpleiot/server"
 )
 
 // C20: concurrent stress of one instance (run from a -race build), then shutdown and reopen.
@@ -25,6 +27,7 @@ import (
 func init() {
 	areas["c20"] = runC20
 	areas["c20-worker"] = runC20Worker
+	areas["c20-fullstop"] = runC20FullStop
 }
 
 type c20Read struct {
@@ -53,6 +56,7 @@ type c20Case struct {
 	Races      int         `json:"races"`
 	RaceText   string      `json:"race_text,omitempty"`
 	ShutdownOK bool        `json:"shutdown_ok"`
+	FullStop   bool        `json:"full_server_stop,omitempty"` // this round also stopped a whole server.Server under load
 	ReopenOK   bool        `json:"reopen_ok"`
 	VerifyOK   bool        `json:"verify_ok"`
 	Err        string      `json:"err,omitempty"`
@@ -563,6 +567,26 @@ func runC20(cfg *config) error {
 			}
 		}
 		os.RemoveAll(dir)
+		if i%3 == 0 && c.Err == "" && cfg.replay == "" {
+			// the whole server (server.NewServer: bus, store, clients, HTTP) stopped while clients are writing: Run must
+			// return and the store file must open again.  Run from the plain build: the race detector watches the store
+			// rounds, not every package the server starts.
+			fs := exec.Command(filepath.Join(filepath.Dir(exe), "harness"), "c20-fullstop")
+			fs.Stderr = io.Discard
+			res := struct {
+				OK  bool   `json:"ok"`
+				Err string `json:"err"`
+			}{}
+			outb, err := c20Output(fs, 90*time.Second)
+			if err != nil || json.Unmarshal(bytes.TrimSpace(outb), &res) != nil {
+				res.OK, res.Err = false, fmt.Sprint("full-server step: ", err)
+			}
+			if !res.OK {
+				c.ShutdownOK = false
+				c.Err = "server shutdown: " + res.Err
+			}
+			c.FullStop = true
+		}
 		if c.Err != "" && c.Unanswered == 0 {
 			c.Unanswered++
 		}
@@ -596,4 +620,127 @@ func c20Min(a, b int) int {
 		return a
 	}
 	return b
+}
+
+func c20Output(cmd *exec.Cmd, limit time.Duration) ([]byte, error) {
+	var out bytes.Buffer
+	cmd.Stdout = &out
+	if err := cmd.Start(); err != nil {
+		return nil, err
+	}
+	done := make(chan error, 1)
+	go func() { done <- cmd.Wait() }()
+	select {
+	case err := <-done:
+		return out.Bytes(), err
+	case <-time.After(limit):
+		_ = cmd.Process.Kill()
+		return nil, fmt.Errorf("no result within %v", limit)
+	}
+}
+
+// c20-fullstop: server.NewServer(...).Run() with clients writing, Stop while they write, Run must return, the file reopens
+func runC20FullStop(_ *config) error {
+	log.SetOutput(io.Discard)
+	ok, msg := c20FullStop()
+	b, _ := json.Marshal(map[string]any{"ok": ok, "err": msg})
+	_, err := os.Stdout.Write(append(b, '\n'))
+	return err
+}
+
+func c20FullStop() (bool, string) {
+	dir, err := os.MkdirTemp("", "verif-c20f-")
+	if err != nil {
+		return false, err.Error()
+	}
+	defer os.RemoveAll(dir)
+	np, err1 := c09FreePort()
+	hp, err2 := c09FreePort()
+	if err1 != nil || err2 != nil {
+		return false, "no free port"
+	}
+	url := fmt.Sprintf("nats://127.0.0.1:%d", np)
+	pub := filepath.Join(dir, "public")
+	_ = os.MkdirAll(pub, 0o755)
+	opts := server.Options{StoreFile: filepath.Join(dir, "db.sqlite"), NatsPort: np, HTTPPort: fmt.Sprint(hp),
+		NatsServer: url, ID: storeRootID, CustomUIDir: pub}
+	s, snc, err := server.NewServer(opts)
+	if err != nil {
+		return false, "NewServer: " + err.Error()
+	}
+	stopped := make(chan struct{})
+	go func() {
+		_ = s.Run()
+		close(stopped)
+	}()
+	ctx, cancel := context.WithTimeout(context.Background(), 15*time.Second)
+	err = s.WaitStart(ctx)
+	cancel()
+	if err != nil {
+		return false, "WaitStart: " + err.Error()
+	}
+	var quit int32
+	var wg sync.WaitGroup
+	var acked int32
+	for w := 0; w < 4; w++ {
+		wg.Add(1)
+		go func(w int) {
+			defer wg.Done()
+			var nc *nats.Conn
+			for k := 0; k < 200 && nc == nil; k++ {
+				nc, _ = nats.Connect(url, nats.Timeout(2*time.Second), nats.MaxReconnects(0))
+				if nc == nil {
+					time.Sleep(25 * time.Millisecond)
+				}
+			}
+			if nc == nil {
+				return
+			}
+			defer nc.Close()
+			for i := 0; atomic.LoadInt32(&quit) == 0; i++ {
+				p := data.Point{Type: "value", Key: fmt.Sprint(w), Value: float64(i), Time: time.Now()}
+				if client.SendNodePoint(nc, storeRootID, p, true) == nil {
+					atomic.AddInt32(&acked, 1)
+				}
+			}
+		}(w)
+	}
+	deadline := time.Now().Add(10 * time.Second)
+	for atomic.LoadInt32(&acked) < 40 && time.Now().Before(deadline) {
+		time.Sleep(10 * time.Millisecond)
+	}
+	if atomic.LoadInt32(&acked) < 40 {
+		atomic.StoreInt32(&quit, 1)
+		s.Stop(nil)
+		return false, "the server did not acknowledge 40 writes within 10 s"
+	}
+	s.Stop(nil) // while the writers are still at it
+	ok := true
+	msg := ""
+	select {
+	case <-stopped:
+	case <-time.After(25 * time.Second):
+		ok, msg = false, "Server.Run did not return within 25 s of Stop"
+	}
+	atomic.StoreInt32(&quit, 1)
+	wg.Wait()
+	snc.Close()
+	if !ok {
+		return false, msg
+	}
+	in2, err := startInstance(dir, storeRootID)
+	if err != nil {
+		return false, "the store file does not open again: " + err.Error()
+	}
+	defer in2.stop()
+	nc2, err := nats.Connect(in2.url, nats.Timeout(10*time.Second))
+	if err != nil {
+		return false, err.Error()
+	}
+	defer nc2.Close()
+	nodes, err := client.GetNodes(nc2, "root", "all", "", false)
+	if err != nil || len(nodes) == 0 {
+		return false, fmt.Sprint("the reopened store does not show its root: ", err)
+	}
+	return true, ""
 }
